@@ -66,6 +66,7 @@ type Prog struct {
 	rawSMT    []string
 	fnByKey   map[string]*ssa.Function
 	assumptionsLog map[string]bool
+	embed     map[string]bool
 }
 
 var repoPkgs = []string{"./semver", "./module", "./modfile", "./zip", "./sumdb", "./sumdb/tlog", "./sumdb/note", "./sumdb/dirhash", "./sumdb/storage", "./internal/lazyregexp"}
@@ -607,4 +608,50 @@ func (P *Prog) closure(text string, extra []string) []*module {
 		visit(m)
 	}
 	return out
+}
+
+// embeddable: the struct type occurs by value inside another struct, array or slice of the loaded
+// program, so a pointer to it may be an interior pointer.
+func (P *Prog) embeddable(t types.Type) bool {
+	if P.embed == nil {
+		P.embed = map[string]bool{}
+		var visit func(tt types.Type, top bool)
+		seen := map[string]bool{}
+		visit = func(tt types.Type, top bool) {
+			switch u := tt.Underlying().(type) {
+			case *types.Struct:
+				k := typeKey(tt)
+				if !top {
+					P.embed[k] = true
+				}
+				if seen[k] {
+					return
+				}
+				seen[k] = true
+				for i := 0; i < u.NumFields(); i++ {
+					visit(u.Field(i).Type(), false)
+				}
+			case *types.Array:
+				visit(u.Elem(), false)
+			case *types.Slice:
+				visit(u.Elem(), false)
+			case *types.Pointer:
+				if _, ok := u.Elem().Underlying().(*types.Struct); ok {
+					visit(u.Elem(), true)
+				}
+			case *types.Map:
+				visit(u.Key(), false)
+				visit(u.Elem(), false)
+			}
+		}
+		for _, pk := range P.pkgs {
+			sc := pk.Types.Scope()
+			for _, n := range sc.Names() {
+				if tn, ok := sc.Lookup(n).(*types.TypeName); ok {
+					visit(tn.Type(), true)
+				}
+			}
+		}
+	}
+	return P.embed[typeKey(t)]
 }
